@@ -147,6 +147,6 @@ example : Laws .ivp 2 exCkt (fun i => match i with
     simp only [exCkt, List.mem_cons, List.mem_nil_iff, or_false] at hc
     rcases hc with rfl | rfl | rfl <;>
       simp only [laws, List.mem_cons, List.mem_nil_iff, or_false] at hp <;>
-      (try subst hp) <;> norm_num [vd, volt, mutualDrop, lsum] <;> simp_all
+      (try subst hp) <;> norm_num [vd, volt, mutualDrop, mutualIC, lsum]
 
 end Lcapy.C01
